@@ -256,7 +256,7 @@ Section StumpAdd.
   Qed.
 
   Lemma add8_succ h : h < 255 -> add8 (N.of_nat h) 1 = N.of_nat (S h).
-  Proof. intros Hh. unfold add8, u8. rewrite N.mod_small; lia. Qed.
+  Proof. intros Hh. unfold add8. rewrite u8_mod, N.mod_small; lia. Qed.
 
   Lemma Heqb_empty_refl : Heqb empty empty = true.
   Proof. apply HOK. reflexivity. Qed.
